@@ -343,6 +343,9 @@ def check(ctx, rep):
                 for f2 in t.funcs:
                     work.append((f2, C))
     pregate_funcs = {m for m, _ in pregate}
+    from .c03 import pregate_functions
+
+    pregate_funcs |= {m for m, _ in pregate_functions(ctx, eff)}
     # every other direct FS/exec call site in the request-path packages must have been analysed
     for mod in prog.modules.values():
         if not (mod.name.startswith(("pygopherd.handlers", "pygopherd.protocols")) or mod.name in ("pygopherd.gopherentry",)):
